@@ -19,7 +19,10 @@ def the_get(f):
     for b in f.bodies.values():
         if b.get("impl", {}).get("trait") == "object::Resolve" and b["id"].endswith("::get"):
             if call_sites(b, lambda nm, t: t.get("callee") == "file::Cache::get_or_compute"):
-                out.append(b)
+                # private helpers of the resolver that take part in the guard protocol (say, `self.enter(key)?`) are looked at as if
+                # their statements stood in get() itself
+                from inline import inlined
+                out.append(inlined(f, b))
     return out
 
 
@@ -70,11 +73,15 @@ def rule_pair(ctx, f, b):
                     if cb and any(last_seg(F.callee_name(t)) in ("pop", "remove", "retain", "swap_remove", "truncate") for _, t in F.calls(cb)):
                         pops_in = cb
     ok = bool(raii) and pops_in is not None
+    from cfg import ccp_reachable
     for bi, t in pushes:
-        ok = ok and cfg.all_paths_pass(t["target"], cfg.exits, {i for i, s in raii})
-        # nothing fallible between push and the RAII value: only drops / gotos
-        region = cfg.reachable_from(t["target"], avoid={i for i, s in raii})
-        calls_between = [r for r in region if b["blocks"][r]["term"]["k"] == "call" and r not in {i for i, s in raii}]
+        rset = {i for i, s in raii}
+        # feasible paths only: after a push inside an inlined helper the helper returns Ok, so the `?` that follows takes its Continue arm
+        region = ccp_reachable(b, t["target"], avoid=rset)
+        ok = ok and not any(b["blocks"][r]["term"]["k"] == "return" for r in region)
+        # nothing fallible between push and the RAII value: only drops / gotos (and the `?` machinery, which cannot fail or unwind)
+        calls_between = [r for r in region if b["blocks"][r]["term"]["k"] == "call" and r not in rset and
+                         last_seg(F.callee_name(b["blocks"][r]["term"])) not in ("branch",)]
         ok = ok and not calls_between
     ctx.check(ok, "C13-PAIR", b["id"] + "#raii-pop",
               "the guard-stack entry is not released by an RAII value constructed right after the push: an early return or a panic in the "
